@@ -226,19 +226,18 @@ pub trait PathImpl: 'static {
 
 	#[inline]
 	fn normalized(&self) -> Self::Owned {
-		let mut result: Self::Owned = if self.is_absolute() {
-			Self::EMPTY_ABSOLUTE.to_path_buf()
-		} else {
-			Self::EMPTY.to_path_buf()
-		};
+		let mut result = self.to_path_buf();
 
-		let mut open = false;
-		for segment in self.segments() {
-			open = result.as_path_mut().symbolic_push(segment)
-		}
+		// A final dot segment leaves a trailing `/`.
+		let open = matches!(
+			self.segments().next_back().map(SegmentImpl::as_bytes),
+			Some(CURRENT_SEGMENT | PARENT_SEGMENT)
+		);
 
-		if open && !result.is_empty() {
-			result.as_path_mut().push(Self::Segment::EMPTY)
+		let mut path = result.as_path_mut();
+		path.normalize();
+		if open && !path.is_empty() {
+			path.push(Self::Segment::EMPTY)
 		}
 
 		result
